@@ -193,7 +193,79 @@ def check_stream(ctx, c, out):
     ctx.acc.count("rng-stream-checked")
 
 
+NEEDS_FRONTENDS = True
+
+
+def cli_delivery(ctx):
+    """The svgdx command reading its input from a pipe: the same bytes, delivered in one write, in bursts with pauses, or a few
+    bytes at a time, in fresh processes - the result must not depend on how the bytes arrive."""
+    from . import frontends
+    acc = ctx.acc
+    rng = ctx.rng("cli-delivery")
+    docs = []
+    for _ in range(3 if ctx.quick() else 20):
+        text, cfg, feats, nt = gen_case(rng)
+        docs.append(text.encode("utf-8"))
+    # long documents: beyond one pipe buffer (64 KiB) and beyond the usual read sizes (8 KiB)
+    for n in ([700, 4000] if ctx.quick() else [150, 700, 2500, 4000, 12000]):
+        docs.append(("<svg>\n" + "\n".join('  <rect xy="%d %d" wh="3" text="r%d"/>' % ((i % 50) * 4, (i // 50) * 4, i) for i in range(n + ctx.shard)) + "\n</svg>\n").encode())
+    ct = corpus.texts()
+    docs += [rng.choice(ct).encode("utf-8") for _ in range(2 if ctx.quick() else 10)]
+    for data in docs:
+        if ctx.out_of_time():
+            break
+        ref = frontends.run_cli([], stdin=data)
+        acc.evaluations += 1
+        if ref.timed_out:
+            acc.inconc("cli-timeout")
+            continue
+        n = len(data)
+        cuts = sorted(set(rng.randint(1, max(1, n - 1)) for _ in range(2)))
+        plans = {"two-bursts": [data[:cuts[0]], data[cuts[0]:]],
+                 "three-bursts": [data[:cuts[0]], data[cuts[0]:cuts[-1]], data[cuts[-1]:]] if len(cuts) > 1 else [data[:1], data[1:]],
+                 "dribble-then-rest": [data[i:i + 1] for i in range(min(12, n))] + [data[min(12, n):]],
+                 "8k-blocks": [data[i:i + 8192] for i in range(0, n, 8192)][:40] + ([data[40 * 8192:]] if n > 40 * 8192 else []),
+                 "short-first-block": [data[:100], data[100:]]}
+        for name, chunks in plans.items():
+            chunks = [c for c in chunks if c]
+            if len(chunks) < 2:
+                continue
+            deliver_and_compare(ctx, data, ref, name, chunks)
+
+
+def deliver_and_compare(ctx, data, ref, name, chunks):
+    from . import frontends
+    acc = ctx.acc
+    n = len(data)
+    acc.cases += 1
+    got = frontends.run_cli_bursts([], chunks, pause=0.03 if name != "dribble-then-rest" else 0.002)
+    acc.evaluations += 1
+    acc.count("cli.stdin-delivery")
+    if got.timed_out:
+        acc.inconc("cli-timeout")
+        return
+    acc.nontriv(core.chash("delivery", name, data), ["cli-stdin-delivery." + name, "input.%s" % ("long" if n > 65536 else "medium" if n > 8192 else "short")])
+    a = ("ok", ref.out) if ref.rc == 0 else ("err", ref.rc)
+    b = ("ok", got.out) if got.rc == 0 else ("err", got.rc)
+    if a != b:
+        from .c05 import diff_class
+        where = diff_class(a[1], b[1]) if a[0] == b[0] == "ok" else "-"
+        acc.violation("nondeterministic", "nondet:cli-stdin-delivery/%s-vs-%s" % (a[0], b[0]),
+                      dict(kind="cli-delivery", input=data, plan=name, chunk_sizes=[len(c) for c in chunks]),
+                      observed=dict(delivery=name, result=b[0], out=core.trunc(got.out, 300), err=core.trunc(got.err, 300), diff=where),
+                      expected=dict(one_write=a[0], out=core.trunc(ref.out, 300)),
+                      what="svgdx reading stdin: the same bytes delivered as %s give a different result than delivered in one write" % name)
+
+
 def check_case(ctx, case):
+    if case.get("kind") == "cli-delivery":
+        from . import frontends
+        data, chunks, at = case["input"], [], 0
+        for k in case["chunk_sizes"]:
+            chunks.append(data[at:at + k])
+            at += k
+        deliver_and_compare(ctx, data, frontends.run_cli([], stdin=data), case["plan"], chunks)
+        return
     workers = [ctx.worker, core.Worker(), core.Worker()]
     try:
         case = dict(case, nontrivial=True)
@@ -233,6 +305,7 @@ def run_shard(ctx):
                 ncls = len(set(re.findall(r"d-[a-z-]+(?:-\d+)?", t)))
                 batch.append(dict(input=t.encode("utf-8"), cfg=cfg, feats=["corpus"], nontrivial=(ncls >= 2 or "rand" in t)))
         run_batch(ctx, workers, batch)
+        cli_delivery(ctx)
     finally:
         for w in workers[1:]:
             w.close()
